@@ -175,7 +175,7 @@ def checks(limit=None, parallel=4):
         out = tempfile.mkdtemp(prefix='verif_mutout_', dir='/dev/shm')
         try:
             _apply(wt, m)
-            order = RELEVANT.get(m['file'], []) + [c for c in ALL if c not in RELEVANT.get(m['file'], [])]
+            order = RELEVANT.get(m['file'], ALL)   # only the checks whose subject the file is (the others cannot see it)
             env = dict(os.environ, VERIF_REPO=wt, VERIF_OUT_DIR=out, VERIF_WORKERS=str(max(2, 16 // parallel)))
             for cid in order:
                 p = subprocess.run([os.path.join(ROOT, 'check'), cid, 'quick'], cwd=ROOT, env=env, capture_output=True, text=True)
